@@ -32,6 +32,9 @@ CONFIGS = {
                                      "platform/c++11/src/nsync_panic.cc", "platform/linux/src/nsync_semaphore_futex.c"], hdefs=[]),
 }
 
+PURE_EXTERNALS = {"_GLOBAL_OFFSET_TABLE_", "__errno_location", "__dso_handle", "__stack_chk_fail", "strlen", "strcmp", "strncmp", "memcmp", "memmove",
+                  "strchr", "strrchr", "strcpy", "strncpy", "memchr", "_ZdlPv", "_ZdlPvm", "_Znwm"}
+
 def sh(cmd):
     r = subprocess.run(cmd, stdout=subprocess.PIPE, stderr=subprocess.STDOUT, text=True)
     if r.returncode != 0:
@@ -94,6 +97,13 @@ def build(cfgname, force=False, cov=False):
     allo = os.path.join(out, "nsync_all.o")
     sh(["ld", "-r", "-o", allo] + objs)
     sh(["objcopy", "--rename-section", ".bss=nsyncbss", "--redefine-syms=" + os.path.join(SIM, "plat", "redefine-syms.txt"), allo])
+    # every external reference of the nsync objects must be either modelled (nsim_sys_*, instrumentation hooks) or known to be a
+    # pure function of its arguments; anything else would behave as the host does, outside the simulator: it is reported by
+    # bin/check (NOTE line + evidence), never silently accepted
+    und = [l.split()[-1] for l in sh(["nm", "-u", allo]).splitlines() if l.strip()]
+    unmodelled = sorted(u for u in und if not (u.startswith(("nsim_sys_", "__tsan_", "Annotate", "_ZNSt8ios_base4Init", "_ZSt4cerr", "_ZStls", "__cxa_", "__gxx_", "_Unwind_"))
+                                                or u in PURE_EXTERNALS))
+    open(os.path.join(out, "unmodelled.txt"), "w").write("".join(u + "\n" for u in unmodelled))
     link = ["g++", "-no-pie", "-o", exe] + rtobjs + [hobj, allo]
     if cov:
         link += ["--coverage", "-Wl,--undefined=__gcov_dump"]
